@@ -255,6 +255,9 @@ def run(scenario, params, tape, detail=False):
             await asyncio.sleep(12.0)
             if not other.done():
                 other.cancel()
+                probe("racing_other_still_pending_after_12s")
+            else:
+                probe("racing_other_" + st.get("racing_other", ("?",))[0])
             st["resets_seen"] = ncp.resets - nres
             return
         try:
